@@ -75,7 +75,7 @@ UnLayer(fam, S) ==
          Un(S, {"ornot", "mw"}) \cup {<<"withctx", c, a>> : c \in {VT("a"), VS(<<"a", "b">>), VI(2)}, a \in S}
          \cup {<<"mapctx", "f", a>> : a \in S} \cup UnP(S, "map", {"num"})
          \cup {<<"collect", r, "vec">> : r \in Reps(S, {<<0, Inf>>})}
-         \cup {<<"collect", <<"cfgrep", <<"rep", a, 0, Inf>>>>, "vec">> : a \in {x \in S : ~CanEmpty(x)}}
+         \cup {<<"collect", <<cf, <<"rep", a, 0, Inf>>>>, "vec">> : cf \in {"cfgrep", "cfgrepmin", "cfgrepmax"}, a \in {x \in S : ~CanEmpty(x)}}
          \cup {<<"run", <<"cfgrep", <<"rep", a, 0, Inf>>>>>> : a \in {x \in S : ~CanEmpty(x)}}
     [] fam \in {"spn", "spng"} ->
          \* every node can be wrapped in a span / slice capture (to_slice only where the kind has slices)
@@ -116,7 +116,7 @@ LeavesOf(fam) ==
     [] fam = "rcv" -> {J("a"), J("b"), JJ("a", "b"), <<"any">>}
     [] fam = "lbl" -> {J("a"), J("b"), JJ("a", "b"), <<"any">>, <<"end">>, <<"cust", 1, FALSE>>}
     [] fam = "memo" -> {J("a"), J("b"), JJ("a", "b"), <<"any">>, <<"cust", 1, FALSE>>}
-    [] fam = "ctx" -> {J("a"), J("b"), <<"any">>, <<"cfgjust">>, <<"cfgjustr">>, <<"mw", <<"any">>>>}
+    [] fam = "ctx" -> {J("a"), JJ("a", "b"), <<"any">>, <<"cfgjust">>, <<"cfgjustr">>, <<"mw", <<"any">>>>}
 
 RECURSIVE GSz(_, _)
 GSz(fam, n) ==
